@@ -111,10 +111,10 @@ def r1_r2_init(repo, rep):
   pn, pc = pcall
   want = {'values': resp, 'index': "'geo'", 'columns': "'date'"}
   for k, v in want.items():
-    a = au.kwarg(pc, k)
+    a = au.arg(pc, {'values': 0, 'index': 1, 'columns': 2}[k], k)
     rep.check(a is not None and norm(a) == v, 'R1/ingestion-pivot', 'pivot %s=%s' % (k, v), f.qualname, '%s=%s' % (k, norm(a) if a is not None else 'missing'),
               'the panel is pivoted with %s=%s instead of %s' % (k, norm(a) if a is not None else 'missing', v), f.loc(pc))
-  agg = au.kwarg(pc, 'aggfunc')
+  agg = au.arg(pc, 3, 'aggfunc')
   rep.check(agg is None or norm(agg) in ("'mean'", 'np.mean'), 'R1/ingestion', 'pivot aggregates duplicate cells with the default mean', f.qualname,
             'aggfunc=%s' % (norm(agg) if agg is not None else 'default'), 'unexpected aggfunc %s' % (norm(agg) if agg is not None else ''), f.loc(pc), nontrivial=False)
   # means / order / shares computed from the zero-filled table
